@@ -107,7 +107,7 @@ _set('C11', {
     'design_ref': '8/C11',
     'technique': 'Lean 4 theorems (kernel-checked, axioms audited) about a model tied to the code by a per-run correspondence check',
     'note': 'Trusted: Lean 4.33 kernel; axioms propext/Classical.choice/Quot.sound only (audited per theorem every run); the Lean specification (lean/DecimalModel/Spec); the hand-written Lean model of the Go methods (lean/DecimalModel), whose agreement with /repo is what the correspondence run of the same check samples on every run (Go harness + compiled Lean driver + line protocol); tools/gen for the regenerated parts.',
-    'text': "Theorems (Properties/C11.lean, 3; Proofs/TextRT Scan): natDigits_readback; text_shortest_digits - for every canonical finite x, Text(x,'e',-1) is the rendering of a literal whose digit string has exactly MinPrec(x) digits (last one non-zero) and whose value is exactly x; parse_text_roundtrip_e - parsing that string (base 10 or 0) into any receiver with precision >= MinPrec returns exactly x's value and sign with accuracy Exact. The other formats (E f g G p b, MarshalText, JSON) and +-0 / +-Inf are decided by the run: output read by an independent reader must denote exactly x with exactly MinPrec digits, then Parse and Cmp on the real code.",
+    'text': "Theorems (Properties/C11.lean 3 + Properties/C11b.lean 25; Proofs/TextRT TextRT2 Scan Scan2, DecimalModel/Marsh.lean = literal MarshalText/UnmarshalText/SetString wrappers): natDigits_readback; text_shortest_digits - for every canonical finite x, Text(x,'e',-1) is the rendering of a literal whose digit string has exactly MinPrec(x) digits (last one non-zero) and whose value is exactly x; parse_text_roundtrip_e - parsing that string (base 10 or 0) into any receiver with precision >= MinPrec returns exactly x's value and sign with accuracy Exact. C11b: text_shortest for ALL of e E f g G (the output is the rendering of a literal whose significant digits are exactly MinPrec(x) digits, first and last non-zero, plus layout zeros in the %f style only, and whose value is exactly x; 'g' with no precision is exactly the 'e' text when exp-1 < -4 or exp-1 >= 6 and exactly the 'f' text otherwise - append_g_shortest_eq), parse_text_roundtrip (formats e E f g G, base 10 and 0, any receiver whose precision - 34 if 0 - is at least MinPrec(x): value, sign, Exact, no error), parse_text_trailing, text_zero/parse_text_zero, text_inf/parse_inf (six spellings)/parse_text_inf, unmarshal_marshal (+ zero, inf, trailing), parse10_correct_E (the parser theorem of C12 for the 'E' marker). Finding recorded in DESIGN: 'precision 0' of the receiver means 34 digits, so the round trip into a zero-value receiver is exact only for MinPrec(x) <= 34 - the theorem states exactly that. The formats p and b and JSON are decided by the run: output read by an independent reader must denote exactly x with exactly MinPrec digits, then Parse and Cmp on the real code.",
 })
 
 _set('C12', {
@@ -115,7 +115,7 @@ _set('C12', {
     'design_ref': '8/C12',
     'technique': 'Lean 4 theorems (kernel-checked, axioms audited) about a model tied to the code by a per-run correspondence check',
     'note': 'Trusted: Lean 4.33 kernel; axioms propext/Classical.choice/Quot.sound only (audited per theorem every run); the Lean specification (lean/DecimalModel/Spec); the hand-written Lean model of the Go methods (lean/DecimalModel), whose agreement with /repo is what the correspondence run of the same check samples on every run (Go harness + compiled Lean driver + line protocol); tools/gen for the regenerated parts.',
-    'text': "Theorems (Properties/C12.lean, 24; Proofs/Scan 1100 lines): parse10_correct - for EVERY well-formed base-10 literal [sign] digits [. digits] [e [sign] digits] (given as structured data and rendered), base 10 or 0, Parse stores the literal's exact value rounded once to the receiver's precision (34 if 0) and mode with truthful accuracy; a zero coefficient gives a signed zero; an exponent outside the range gives an error; rejection for ALL strings of each shape: empty, lone sign, no mantissa digits, trailing or doubled '_', exponent marker without digits, exponent beyond int64, trailing bytes after a complete number; parse_total - the model's Parse is a total function into ok/error (the scanner is structurally recursive on the input: Lean checks termination), invalid base arguments being the documented panic outside the domain. Not at theorem level: 'E', 'p' exponents and bases 2/8/16 (exact when representable / within one ulp), acceptance set = math/big's - decided by the run three ways (Go, Lean scanner, math/big Float.Parse).",
+    'text': "Theorems (Properties/C12.lean, 24; Proofs/Scan 1100 lines): parse10_correct - for EVERY well-formed base-10 literal [sign] digits [. digits] [e [sign] digits] (given as structured data and rendered), base 10 or 0, Parse stores the literal's exact value rounded once to the receiver's precision (34 if 0) and mode with truthful accuracy; a zero coefficient gives a signed zero; an exponent outside the range gives an error; rejection for ALL strings of each shape: empty, lone sign, no mantissa digits, trailing or doubled '_', exponent marker without digits, exponent beyond int64, trailing bytes after a complete number; parse_total - the model's Parse is a total function into ok/error (the scanner is structurally recursive on the input: Lean checks termination), invalid base arguments being the documented panic outside the domain. 'E' exponents: parse10_correct_E in Properties/C11b.lean. Not at theorem level: 'p' exponents and bases 2/8/16 (exact when representable / within one ulp), acceptance set = math/big's - decided by the run three ways (Go, Lean scanner, math/big Float.Parse).",
 })
 
 _set('C13', {
